@@ -34,70 +34,101 @@ PID = "C08"
 TITLE = "Context addressing, formatting and update elements touch exactly the named item"
 LEAN_MODULES = ["LenaModel.Props.C08"]
 LEAN_SOURCES = ["LenaModel/Model/C08.lean", "LenaModel/Model/C08Spec.lean", "LenaModel/Props/C08.lean", "LenaModel/Lemmas/C08.lean",
+                "LenaModel/Lemmas/C08Json.lean", "LenaModel/Lemmas/C08JsonV.lean",
                 "LenaModel/Lemmas/C08Fmt.lean", "LenaModel/Lemmas/C08Str.lean"]
 DRIVER = "drivers/C08.lean"
 THEOREMS = [
+    # the three notations address the same item; get_recursively / str_to_dict / contains
     "Lena.C08.notations_agree",
     "Lena.C08.get_eq_path",
-    "Lena.C08.get_non_dict",
-    "Lena.C08.get_bad_keys",
     "Lena.C08.get_of_str_to_dict",
-    "Lena.C08.str_to_dict_errors",
     "Lena.C08.contains_iff",
     "Lena.C08.contains_empty",
+    "Lena.C08.getRec_errors",
+    # format_context
     "Lena.C08.format_exact",
     "Lena.C08.format_init_total",
+    "Lena.C08.formatCall_errors",
+    # to_string is canonical
     "Lena.C08.to_string_perm",
-    "Lena.C08.to_string_inj",
-    "Lena.C08.to_string_canonical",
     "Lena.C08.to_string_reorder",
+    "Lena.C08.to_string_inj_tokens_partial",
+    "Lena.C08.to_string_inj_chars_partial",
+    "Lena.C08.to_string_canonical",
+    "Lena.C08.jsonStrC_inj",
     "Lena.C08.pyEq_iff",
+    "Lena.C08.jTokens_toJ",
+    # UpdateContext: exactly the addressed item; the option matrix from the constructor arguments
     "Lena.C08.update_exact",
-    "Lena.C08.update_value_cases",
     "Lena.C08.merge_keeps_siblings",
-    "Lena.C08.update_keeps_data",
     "Lena.C08.ucInit_subctx",
+    "Lena.C08.init_matrix",
+    "Lena.C08.value_template",
+    "Lena.C08.strip_blanks",
+    "Lena.C08.ucInit_value",
+    "Lena.C08.jinjaParse_templateString",
+    "Lena.C08.ucInit_template",
     "Lena.C08.missing_key_matrix_value",
     "Lena.C08.missing_key_outcomes",
     "Lena.C08.present_key_outcome",
     "Lena.C08.missing_key_matrix_template",
-    "Lena.C08.simple_update_outcome",
-    "Lena.C08.init_matrix",
+    "Lena.C08.update_context_value_end_to_end",
+    "Lena.C08.update_context_template_end_to_end",
+    "Lena.C08.ucCall_errors",
+    # DeleteContext
     "Lena.C08.delete_notations",
     "Lena.C08.delete_exact",
-    "Lena.C08.delete_bare_and_empty",
     "Lena.C08.delete_absent_noop",
+    # format_update_with / update_recursively / SetContext
     "Lena.C08.fuw_plain",
+    "Lena.C08.fuw_frame",
     "Lena.C08.fuw_template",
-    "Lena.C08.fuw_errors",
+    "Lena.C08.fuw_template_exact",
+    "Lena.C08.formatUpdateWith_errors",
     "Lena.C08.update_recursively_spec",
     "Lena.C08.set_context_plain",
     "Lena.C08.set_context_missing",
+    # results are well-formed dictionaries again
+    "Lena.C08.update_keeps_wf",
+    "Lena.C08.delete_keeps_wf",
+]
+# true by definition / one branch of the model restated / Boolean encodings of hypotheses / a proved negation: audited
+# (built, axiom-checked) but not counted as proof obligations of the property (review F7)
+AUX_THEOREMS = [
+    "Lena.C08.get_non_dict",
+    "Lena.C08.get_bad_keys",
+    "Lena.C08.str_to_dict_errors",
+    "Lena.C08.update_value_cases",
+    "Lena.C08.update_keeps_data",
+    "Lena.C08.simple_update_outcome",
+    "Lena.C08.delete_bare_and_empty",
+    "Lena.C08.fuw_errors",
+    "Lena.C08.non_string_key",
+    "Lena.C08.to_string_errors",
+    "Lena.C08.to_string_raw_keys",
+    "Lena.C08.context_element",
+    "Lena.C08.to_string_inj_full_false",
     "Lena.C08.pieceWFB_iff",
     "Lena.C08.illFormedB_iff",
     "Lena.C08.strFieldsB_iff",
     "Lena.C08.notTemplateB_iff",
     "Lena.C08.wfPathB_iff",
     "Lena.C08.valWFB_iff",
-    "Lena.C08.non_string_key",
-    "Lena.C08.strip_blanks",
-    "Lena.C08.value_template",
-    "Lena.C08.to_string_errors",
-    "Lena.C08.context_element",
-    "Lena.C08.jTokens_toJ",
-    "Lena.C08.to_string_raw_keys",
-    "Lena.C08.update_keeps_wf",
-    "Lena.C08.delete_keeps_wf",
 ]
 TRUSTED = [
     "Lean 4.33.0 kernel; axioms limited to propext, Classical.choice, Quot.sound (audited by #print axioms on every run)",
     "hand transcription of lena/context/functions.py (contains, format_context, format_update_with, get_recursively, str_to_dict, "
-    "str_to_list, to_string, update_recursively), lena/context/update_context.py, lena/context/elements.py and "
-    "lena/meta/elements.py (SetContext) into LenaModel/Model/C08.lean, validated by this correspondence check",
-    "third-party semantics as transcribed and validated likewise: str.format on the format strings the scanner produces, "
-    "Python str() of None/bool/int/str, json.dumps(sort_keys=True, separators=(',',':')) at the level of tokens (the spelling "
-    "of one key or scalar is assumed injective), re.match('{{[^{}]+}}$'), the jinja2 fragment 'literal text and {{dotted.name}}' "
-    "with ChainableUndefined/StrictUndefined, copy.deepcopy as the identity on values",
+    "str_to_list, to_string, update_recursively), lena/context/update_context.py, lena/context/elements.py, "
+    "lena/context/context.py (Context) and lena/meta/elements.py (SetContext) at /repo d8e17d6 into LenaModel/Model/C08.lean, "
+    "validated by this correspondence check",
+    "third-party semantics as transcribed and validated likewise: str.format on the format strings the scanner produces; "
+    "Python str() of None/bool/int/float/str and repr of containers with plain ASCII strings; json.dumps(sort_keys=True, "
+    "separators=(',',':'), ensure_ascii=True): structure, key sorting and the escaping of strings are modelled and proved "
+    "uniquely decodable (jsonStrC_inj, to_string_inj_chars_partial); the decimal spelling of integers and float.__repr__ are "
+    "NOT analysed (the model holds a float as its repr string): that they are injective, contain none of , ] } and cannot be "
+    "confused with each other is trusted and sampled; re.match(r'{{\\s*[^{}\\s][^{}]*}}\\Z') and str.strip() with the "
+    "str.isspace() blanks; the jinja2 fragment 'literal text and {{dotted.name}}' with ChainableUndefined/StrictUndefined "
+    "(blanks inside the braces per str.isspace()); copy.deepcopy as the identity on values",
     "JSON line protocol encoders (harness/props/c08.py, drivers/C08.lean)",
 ]
 ASSUMPTIONS = [
@@ -113,6 +144,23 @@ ASSUMPTIONS = [
     "and re-reading the default, the update argument, the source item and a second call",
     "a builtin ValueError raised by str.format at call time for a template that is not 'literals and {{fields}}' is the documented "
     "behaviour of format_context and not counted as a foreign exception",
+    "'different dictionaries give different strings' is proved at the level of tokens for all values and at the level of "
+    "characters for values without numbers; the full character-level statement (to_string_inj_full) is FALSE of the model, which "
+    "holds a float as an arbitrary repr string (float '1' is spelled like int 1: to_string_inj_full_false) - that real float reprs "
+    "and decimal integers are decodable and distinct is trusted and sampled by the tostr families",
+    "the data of a value are opaque to the model (Item is parametric in them): 'leave the data untouched' is established on the "
+    "real code only (identity of the data object, payload unchanged), not by a theorem",
+    "replacing a scalar that lies ON the path to the sub-context by a dictionary (UpdateContext('a.b', 1) on {'a': 5}) is read "
+    "as part of writing the addressed item, not as touching another item: update_exact and the reference ref_set speak about "
+    "paths that are not prefix-comparable with the sub-context",
+    "get_recursively with a dictionary notation whose innermost value is a non-empty list or a foreign object (it becomes a "
+    "key; a list is unhashable: builtin TypeError when reached) is judged outside the malformed-argument sentence, which names "
+    "UpdateContext, DeleteContext and format_update_with; the model answers 'unmodelled', the oracle accepts the TypeError",
+    "contains through a list whose repr the model does not transcribe (a non-ASCII or quote-bearing string, a foreign object "
+    "inside the list): the model's contains answers False there, the driver reports that field as declined and it is not compared",
+    "blanks are the str.isspace() characters listed in Model/C08.lean (isSpace); the Unicode database is not consulted",
+    "key paths of UpdateContext sub-contexts and DeleteContext keys are exercised up to 5 components, templates up to 3 fields; "
+    "the theorems have no such bound",
 ]
 RULE = ("addr: every context over keys {a,b} of depth <= 2 with leaves {1,'b',None} (400) and - thorough: every, quick: 400 sampled - "
         "context of depth <= 3 with leaves {1,'b'} (21609) x every key path of length 0..4 over {a,b,1} (121) x dotted/list/two "
@@ -123,8 +171,11 @@ RULE = ("addr: every context over keys {a,b} of depth <= 2 with leaves {1,'b',No
         "included), every string of length <= 6 over '{}a.' (thorough <= 7, plus '!:'), non-strings; tostr: families of contexts "
         "with every key order and one-step mutants, lists, floats, unserialisable objects; tostrj: dictionaries with int/bool/"
         "None/float/object keys in all pairs and orders; uc: the complete option matrix value x default x skip x raise x "
-        "recursively x 18 update kinds x 4 subcontexts on 17 items, 14 edge templates ({{ a }}, trailing newline, ...) x options, "
-        "non-string subcontexts; dc: all paths <= 3 over {a,b} in string/list/tuple form, non-string keys; fuw/setctx/upd "
+        "recursively (default in {absent, 0, None, a dictionary}) x 18 update kinds x 4 subcontexts on 17 items, 17 edge templates "
+        "({{ a }}, Unicode blanks, trailing newline, ...) x options, sub-contexts of 4 and 5 components, keys with blanks at their "
+        "ends / quotes / backslashes / non-ASCII, non-string subcontexts; dc: all paths <= 3 over {a,b} in string/list/tuple form, "
+        "paths of 4-5 components, keys with blanks, non-string keys and list/tuple keys with a non-string member at every "
+        "position; addr/s2d/tostr also over keys and strings ' a', 'a ', 'a b', 'q\"', '\\', 'e-acute', newline; fuw/setctx/upd "
         "likewise incl. non-string keys; context: Context.__call__/__getattr__/__repr__ on the item set; every case also executes "
         "the specification-side definitions (WFPath, EntriesWF, Piece.WF, StrFields, renderSpec, templateString, IllFormed, "
         "NotTemplate, ucSet/delPath/nestPath/subDict, pyStrVal, pyEq) in the driver and compares them with Python references; "
